@@ -11,7 +11,8 @@ import (
 // nilResultUses: for every call in fns that returns (T, error) with T an interface or pointer,
 // every use of the T result that needs it non-nil — as the receiver of a method call, as the
 // base of a field access, or handed to a helper of the module that uses its parameter that way,
-// each of them also when deferred — must lie where the call's error is known nil. By the Go
+// each of them also when deferred — must lie where the call's error is known nil (or the value
+// itself has been tested non-nil). By the Go
 // convention a failing producer returns (nil, err); such a use then panics, and a panic in a
 // session goroutine that has no recover ends the whole server process.
 //
@@ -124,7 +125,7 @@ func (c *Ctx) nilResultUses(fns []*ssa.Function, report func(use ssa.Instruction
 					if what == "" {
 						continue
 					}
-					if !eng.KnownNil(ev, l.at(ref)) {
+					if !eng.KnownNil(ev, l.at(ref)) && !eng.KnownNonNil(l.v, l.at(ref)) && !eng.KnownNonNil(v, l.at(ref)) && !errJudgedByHelper(ev, l.at(ref)) {
 						report(ref, call, what)
 					}
 				}
@@ -149,6 +150,45 @@ func derefsParam(prm *ssa.Parameter) bool {
 		case *ssa.FieldAddr:
 			if x.X == ssa.Value(prm) && !eng.KnownNonNil(prm, x.Block()) {
 				return true
+			}
+		}
+	}
+	return false
+}
+
+// errJudgedByHelper: the error went to a helper of the module whose result decides a branch
+// that dominates the use (an "answer the failure, tell me whether to stop" helper). What the
+// helper concludes is not this rule's to say; the use is left to the rules that follow values
+// through calls.
+func errJudgedByHelper(ev ssa.Value, at *ssa.BasicBlock) bool {
+	if ev.Referrers() == nil || at == nil {
+		return false
+	}
+	for _, ref := range *ev.Referrers() {
+		call, ok := ref.(*ssa.Call)
+		if !ok {
+			continue
+		}
+		g := eng.StaticCallee(call.Common())
+		if g == nil || !eng.InModule(g) || !call.Block().Dominates(at) {
+			continue
+		}
+		outs := []ssa.Value{call}
+		if call.Referrers() != nil {
+			for _, cr := range *call.Referrers() {
+				if ex, ok := cr.(*ssa.Extract); ok {
+					outs = append(outs, ex)
+				}
+			}
+		}
+		for _, o := range outs {
+			if o.Referrers() == nil {
+				continue
+			}
+			for _, or := range *o.Referrers() {
+				if br, ok := or.(*ssa.If); ok && br.Block() != at && br.Block().Dominates(at) {
+					return true
+				}
 			}
 		}
 	}
